@@ -16,12 +16,17 @@
 (* (fp->int width) a b (operands, b = <<>> for unary) fold out sv solved   *)
 (* sout; depth-2 events carry an inner operation iop irm ia ib whose       *)
 (* reference result replaces operand ipos (1 = a, 2 = b; iop = "" none).   *)
+(* so / mix (not used by the verdict): which FSort object built the        *)
+(* constants; which operand stayed a constant inside the symbolic          *)
+(* expression on the solved route.                                         *)
 (* zs: self-test only (reference obtained from Z3 directly): 1 = Z3 gave a *)
 (* numeral, 0 = Z3 left the term unevaluated (unspecified), 2 = n/a.       *)
 (***************************************************************************)
 EXTENDS FP, Json, IOUtils
 
-Inner(e) == FpSem(e.iop, e.irm, e.ia, e.ib, e.eb, e.sb, e.eb, e.sb, 0)
+\* inner "fpv": a numeral written as a double (64-bit pattern ia) constructed at the operand format
+Inner(e) == IF e.iop = "fpv" THEN FpSem("fpv", "RNE", e.ia, <<>>, 11, 53, e.eb, e.sb, 0)
+            ELSE FpSem(e.iop, e.irm, e.ia, e.ib, e.eb, e.sb, e.eb, e.sb, 0)
 OpA(e) == IF e.iop # "" /\ e.ipos = 1 THEN Inner(e) ELSE e.a
 OpB(e) == IF e.iop # "" /\ e.ipos = 2 THEN Inner(e) ELSE e.b
 Ref(e) == FpSem(e.op, e.rm, OpA(e), OpB(e), e.eb, e.sb, e.eb2, e.sb2, e.size)
